@@ -1,4 +1,7 @@
-(* Plugin family "misc": Gallina models of bandit plugins; definitions only (proofs go to Proofs/). *)
+(* Plugin family "misc": Gallina models of bandit plugins; definitions only (proofs go to Proofs/).
+   B506 yaml_load, B614 pytorch_load, B202 tarfile_unsafe_members, B201 flask_debug_true,
+   B612 logging_config_insecure_listen, B601 paramiko_calls, B102 exec_used, B101 assert_used,
+   B110 try_except_pass, B112 try_except_continue. *)
 From Coq Require Import List NArith ZArith Bool String.
 From Bandit Require Import Base.PyStr Ast.Node Engine.Types Engine.Resolve Engine.Context Engine.Linerange
      Engine.Scan Regex.Regex.
@@ -6,4 +9,462 @@ Import ListNotations.
 Local Open Scope string_scope.
 Local Open Scope list_scope.
 
-Definition misc_plugins : list plugin := [].
+(* ------------------------------------------------------------------------------------------ *)
+(* shared helpers                                                                              *)
+
+Definition mk_issue (sev conf : rank) (cwe : Z) (text : pstr) (lineno : option Z) : rissue :=
+  RIssue sev conf cwe text lineno None None None.
+
+(* qualname.split('.') and its last element *)
+Definition qual_parts (q : pstr) : list pstr := split_on dot q.
+Definition qual_func (q : pstr) : pstr := last (qual_parts q) [].
+
+Definition is_some_true (o : option bool) : bool :=
+  match o with Some true => true | _ => false end.
+
+(* context.node.keywords : AttributeError when the node has no such attribute *)
+Definition node_keywords (c : ctx) : res (list node) :=
+  match field_opt "keywords" (c_node c) with
+  | Some v => Ok (items v)
+  | None => Raise AttributeError
+  end.
+
+(* first keyword of the node whose .arg == name (the `for keyword in ...: if keyword.arg == name` loops) *)
+Definition first_kw (name : pstr) (kws : list node) : option node :=
+  find (fun k => okey_eqb (kw_arg k) (Some name)) kws.
+
+(* bool(x) of a configuration value *)
+Definition jv_truthy (v : jv) : bool :=
+  match v with
+  | JNull => false
+  | JBool b => b
+  | JInt z => negb (Z.eqb z 0)
+  | JStr s => truthy_str s
+  | JList l => match l with [] => false | _ => true end
+  | JDict l => match l with [] => false | _ => true end
+  end.
+
+(* ------------------------------------------------------------------------------------------ *)
+(* B506 yaml_load                                                                              *)
+
+Definition yaml_text : pstr :=
+  s2p "Use of unsafe yaml load. Allows instantiation of arbitrary objects. Consider yaml.safe_load().".
+Definition yaml_issue (l : Z) : rissue := mk_issue MEDIUM HIGH 20 yaml_text (Some l).
+
+Definition SafeLoader_s : pstr := s2p "SafeLoader".
+Definition CSafeLoader_s : pstr := s2p "CSafeLoader".
+
+(* the four argument conditions of the all([...]) list, all evaluated (the list is built eagerly) *)
+Definition yaml_args_unsafe (c : ctx) : res bool :=
+  do a <- check_call_arg_value c (s2p "Loader") [PStr SafeLoader_s];;
+  do b <- check_call_arg_value c (s2p "Loader") [PStr CSafeLoader_s];;
+  do p <- get_call_arg_at_position c 1;;
+  Ok (negb (is_some_true a) && negb (is_some_true b)
+      && negb (pyval_eqb p (PStr SafeLoader_s)) && negb (pyval_eqb p (PStr CSafeLoader_s))).
+
+Definition yaml_name_hit (q : pstr) : bool :=
+  mem_pstr (s2p "yaml") (qual_parts q) && pstr_eqb (qual_func q) (s2p "load").
+
+Definition yaml_load_fn (c : ctx) : res (option rissue) :=
+  match c_qualname c with
+  | None => Raise AttributeError                       (* None.split *)
+  | Some q =>
+      if negb (is_module_imported_exact c (s2p "yaml")) then Ok None
+      else
+        do u <- yaml_args_unsafe c;;
+        if yaml_name_hit q && u then
+          match lineno_of (c_node c) with
+          | Some l => Ok (Some (yaml_issue l))
+          | None => Raise AttributeError
+          end
+        else Ok None
+  end.
+
+(* ------------------------------------------------------------------------------------------ *)
+(* B614 pytorch_load                                                                           *)
+
+Definition torch_text : pstr := s2p "Use of unsafe PyTorch load".
+Definition torch_issue (l : option Z) : rissue := mk_issue MEDIUM HIGH 502 torch_text l.
+
+Definition torch_name_hit (q : pstr) : bool :=
+  mem_pstr (s2p "torch") (qual_parts q) && pstr_eqb (qual_func q) (s2p "load").
+
+(* weights_only == 'True' (the `is True` disjunct can never hold: keyword values are str/None/...) *)
+Definition weights_only_true (v : pyval) : bool := pyval_eqb v (PStr (s2p "True")).
+
+Definition pytorch_load_fn (c : ctx) : res (option rissue) :=
+  match c_qualname c with
+  | None => Raise AttributeError
+  | Some q =>
+      if negb (is_module_imported_exact c (s2p "torch")) then Ok None
+      else if torch_name_hit q then
+        do w <- get_call_arg_value c (s2p "weights_only");;
+        if weights_only_true w then Ok None
+        else Ok (Some (torch_issue (get_lineno_for_call_arg c (s2p "load"))))
+      else Ok None
+  end.
+
+(* ------------------------------------------------------------------------------------------ *)
+(* B202 tarfile_unsafe_members                                                                 *)
+
+Inductive members_val :=
+| MFunction (id : pstr)        (* {'Function': arg.func.id} *)
+| MOtherName (id : pstr)       (* {'Other': arg.id} *)
+| MOtherNode (n : node).       (* {'Other': <ast object>} *)
+
+Definition tar_low_prefix : pstr :=
+  s2p "Usage of tarfile.extractall(members=function(tarfile)). Make sure your function properly discards dangerous members ".
+Definition tar_medium_prefix : pstr :=
+  s2p "Found tarfile.extractall(members=?) but couldn't identify the type of members. Check if the members were properly validated ".
+Definition tar_high_text : pstr :=
+  s2p "tarfile.extractall used without any validation. Please check and discard dangerous members.".
+Definition tar_suffix : pstr := s2p ").".
+
+(* str() of the one-entry dict; an identifier's repr is the identifier in single quotes.
+   For an AST object the text is '<ast.X object at 0x...>': not renderable, marked. *)
+Definition ast_object_marker : pstr := s2p "<AST-OBJECT>".
+Definition members_dict_str (m : members_val) : pstr :=
+  match m with
+  | MFunction f => s2p "{'Function': '" ++ f ++ s2p "'}"
+  | MOtherName x => s2p "{'Other': '" ++ x ++ s2p "'}"
+  | MOtherNode _ => s2p "{'Other': " ++ ast_object_marker ++ s2p "}"
+  end.
+
+Inductive tar_grade := TarLow | TarMedium | TarHigh.
+Definition tar_issue (g : tar_grade) (m : pstr) : rissue :=
+  match g with
+  | TarLow => mk_issue LOW LOW 22 (tar_low_prefix ++ m ++ tar_suffix) None
+  | TarMedium => mk_issue MEDIUM MEDIUM 22 (tar_medium_prefix ++ m ++ tar_suffix) None
+  | TarHigh => mk_issue HIGH HIGH 22 tar_high_text None
+  end.
+
+(* get_members_value: None = the loop ends without a return *)
+Definition members_of_value (arg : node) : res members_val :=
+  if is_cls "Call" arg then
+    match field_opt "id" (field "func" arg) with
+    | Some (NId f) => Ok (MFunction f)
+    | _ => Raise AttributeError             (* arg.func.id on a non-Name *)
+    end
+  else if is_cls "Name" arg then Ok (MOtherName (name_id arg))
+  else Ok (MOtherNode arg).
+
+Definition get_members_value (c : ctx) : res (option members_val) :=
+  do kws <- node_keywords c;;
+  match first_kw (s2p "members") kws with
+  | Some k => do m <- members_of_value (field "value" k);; Ok (Some m)
+  | None => Ok None
+  end.
+
+(* is_filter_data: truthiness of the result (None when no keyword is called filter) *)
+Definition value_is_data (v : node) : bool :=
+  match str_of v with Some s => pstr_eqb s (s2p "data") | None => false end.
+Definition is_filter_data (c : ctx) : res bool :=
+  do kws <- node_keywords c;;
+  match first_kw (s2p "filter") kws with
+  | Some k => Ok (value_is_data (field "value" k))
+  | None => Ok false
+  end.
+
+Definition members_grade (m : members_val) : tar_grade :=
+  match m with MFunction _ => TarLow | _ => TarMedium end.
+
+Definition tarfile_name_hit (c : ctx) (nm : pstr) : bool :=
+  is_module_imported_exact c (s2p "tarfile") && contains nm (s2p "extractall").
+
+Definition tarfile_unsafe_members_fn (c : ctx) : res (option rissue) :=
+  match c_name c with
+  | None => Raise TypeError                                  (* 'extractall' in None *)
+  | Some nm =>
+      if tarfile_name_hit c nm then
+        do kws <- call_keywords c;;
+        match kws with
+        | None => Raise TypeError                            (* 'filter' in None *)
+        | Some l =>
+            do fd <- (if kw_mem (s2p "filter") l then is_filter_data c else Ok false);;
+            if fd then Ok None
+            else if kw_mem (s2p "members") l then
+              do m <- get_members_value c;;
+              match m with
+              | Some mv => Ok (Some (tar_issue (members_grade mv) (members_dict_str mv)))
+              | None => Raise TypeError                      (* 'Function' in None *)
+              end
+            else Ok (Some (tar_issue TarHigh []))
+        end
+      else Ok None
+  end.
+
+(* ------------------------------------------------------------------------------------------ *)
+(* B201 flask_debug_true                                                                       *)
+
+Definition flask_text : pstr :=
+  s2p "A Flask app appears to be run with debug=True, which exposes the Werkzeug debugger and allows the execution of arbitrary code.".
+Definition flask_issue (l : option Z) : rissue := mk_issue HIGH MEDIUM 94 flask_text l.
+
+Definition flask_debug_true_fn (c : ctx) : res (option rissue) :=
+  if is_module_imported_like c (s2p "flask") then
+    match c_qualname c with
+    | None => Raise AttributeError                            (* None.endswith *)
+    | Some q =>
+        if endswith q (s2p ".run") then
+          do r <- check_call_arg_value c (s2p "debug") [PStr (s2p "True")];;
+          if is_some_true r
+          then Ok (Some (flask_issue (get_lineno_for_call_arg c (s2p "debug"))))
+          else Ok None
+        else Ok None
+    end
+  else Ok None.
+
+(* ------------------------------------------------------------------------------------------ *)
+(* B612 logging_config_insecure_listen                                                         *)
+
+Definition listen_text : pstr := s2p "Use of insecure logging.config.listen detected.".
+Definition listen_issue : rissue := mk_issue MEDIUM HIGH 94 listen_text None.
+Definition listen_qual : pstr := s2p "logging.config.listen".
+
+Definition logging_config_insecure_listen_fn (c : ctx) : res (option rissue) :=
+  if okey_eqb (c_qualname c) (Some listen_qual) then
+    do kws <- call_keywords c;;
+    match kws with
+    | None => Raise TypeError                                 (* 'verify' not in None *)
+    | Some l => if kw_mem (s2p "verify") l then Ok None else Ok (Some listen_issue)
+    end
+  else Ok None.
+
+(* ------------------------------------------------------------------------------------------ *)
+(* B601 paramiko_calls                                                                         *)
+
+Definition paramiko_text : pstr :=
+  s2p "Possible shell injection via Paramiko call, check inputs are properly sanitized.".
+Definition paramiko_issue : rissue := mk_issue MEDIUM MEDIUM 78 paramiko_text None.
+
+Definition paramiko_calls_fn (c : ctx) : res (option rissue) :=
+  if is_module_imported_like c (s2p "paramiko") then
+    if okey_eqb (c_name c) (Some (s2p "exec_command")) then Ok (Some paramiko_issue) else Ok None
+  else Ok None.
+
+(* ------------------------------------------------------------------------------------------ *)
+(* B102 exec_used                                                                              *)
+
+Definition exec_text : pstr := s2p "Use of exec detected.".
+Definition exec_issue : rissue := mk_issue MEDIUM HIGH 78 exec_text None.
+
+Definition exec_used_fn (c : ctx) : res (option rissue) :=
+  if okey_eqb (c_qualname c) (Some (s2p "exec")) then Ok (Some exec_issue) else Ok None.
+
+(* ------------------------------------------------------------------------------------------ *)
+(* fnmatch.fnmatch on POSIX (normcase is the identity): fnmatch.translate + re.match            *)
+
+Local Open Scope N_scope.
+
+Inductive sitem := SLit (c : N) | SRange (lo hi : N).
+Inductive gtok := GStar | GAny | GLit (c : N) | GSet (neg : bool) (its : list sitem).
+
+Definition ch_star : N := 42.     (* * *)
+Definition ch_qm : N := 63.       (* ? *)
+Definition ch_lb : N := 91.       (* [ *)
+Definition ch_rb : N := 93.       (* ] *)
+Definition ch_bang : N := 33.     (* ! *)
+Definition ch_hyphen : N := 45.   (* - *)
+
+(* The chunk splitting of translate(): a '-' that follows a non-operator character and is followed by
+   at least one more character is a range operator; the character after the upper end never is. *)
+Fixpoint set_items (s : pstr) : list sitem :=
+  match s with
+  | [] => []
+  | c :: rest =>
+      match rest with
+      | h :: hi :: rest' =>
+          if h =? ch_hyphen then SRange c hi :: set_items rest' else SLit c :: set_items rest
+      | _ => SLit c :: set_items rest
+      end
+  end.
+
+(* "Remove empty ranges -- invalid in RE." *)
+Definition sitem_nonempty (i : sitem) : bool :=
+  match i with SLit _ => true | SRange lo hi => lo <=? hi end.
+
+Definition sitem_accepts (i : sitem) (c : N) : bool :=
+  match i with
+  | SLit x => c =? x
+  | SRange lo hi => (lo <=? c) && (c <=? hi)
+  end.
+
+(* stuff = pat[i:j] -> the character class.  GSet false [] is '(?!)', GSet true [] is '.'.
+   When the pattern has no leading '!' but removing empty ranges leaves a '!' in front, translate()
+   still reads it as the negation sign ('[b-a!x]' = '[^x]', '[b-a!-z]' = '[^-z]'). *)
+Definition set_token (body : pstr) : gtok :=
+  match body with
+  | 33 :: core => GSet true (filter sitem_nonempty (set_items core))
+  | _ =>
+      match filter sitem_nonempty (set_items body) with
+      | SLit 33 :: r => GSet true r
+      | SRange 33 hi :: r => GSet true (SLit ch_hyphen :: SLit hi :: r)
+      | its => GSet false its
+      end
+  end.
+
+(* characters up to (excluding) the first ']' ; None when there is none *)
+Fixpoint until_rbracket (p : pstr) : option pstr :=
+  match p with
+  | [] => None
+  | c :: p' => if c =? ch_rb then Some [] else option_map (cons c) (until_rbracket p')
+  end.
+
+(* p = the pattern after a '[' ; the text between the brackets, None when the set is not closed *)
+Definition set_body (p : pstr) : option pstr :=
+  let pre1 := match p with c :: _ => if c =? ch_bang then [c] else [] | [] => [] end in
+  let p1 := skipn (List.length pre1) p in
+  let pre2 := match p1 with c :: _ => if c =? ch_rb then [c] else [] | [] => [] end in
+  let p2 := skipn (List.length pre2) p1 in
+  option_map (fun b => pre1 ++ pre2 ++ b) (until_rbracket p2).
+
+(* translate(): pattern text -> tokens; [skip] characters are consumed by a set already emitted *)
+Fixpoint glob_parse_aux (p : pstr) (skip : nat) : list gtok :=
+  match p with
+  | [] => []
+  | c :: p' =>
+      match skip with
+      | S k => glob_parse_aux p' k
+      | O =>
+          if c =? ch_star then GStar :: glob_parse_aux p' O
+          else if c =? ch_qm then GAny :: glob_parse_aux p' O
+          else if c =? ch_lb then
+            match set_body p' with
+            | Some b => set_token b :: glob_parse_aux p' (S (List.length b))
+            | None => GLit c :: glob_parse_aux p' O
+            end
+          else GLit c :: glob_parse_aux p' O
+      end
+  end.
+Definition glob_parse (p : pstr) : list gtok := glob_parse_aux p O.
+
+Definition tok_accepts (t : gtok) (c : N) : bool :=
+  match t with
+  | GStar => false
+  | GAny => true
+  | GLit x => c =? x
+  | GSet neg its => xorb neg (existsb (fun i => sitem_accepts i c) its)
+  end.
+
+(* re.match('(?s:...)\Z', name) on the token sequence *)
+Fixpoint glob_match (ts : list gtok) : pstr -> bool :=
+  match ts with
+  | [] => fun s => match s with [] => true | _ => false end
+  | GStar :: ts' =>
+      fix star (s : pstr) : bool :=
+        glob_match ts' s || match s with [] => false | _ :: s' => star s' end
+  | t :: ts' =>
+      fun s => match s with [] => false | c :: s' => tok_accepts t c && glob_match ts' s' end
+  end.
+
+Definition fnmatch_b (name pat : pstr) : bool := glob_match (glob_parse pat) name.
+
+Local Close Scope N_scope.
+
+(* ------------------------------------------------------------------------------------------ *)
+(* B101 assert_used                                                                            *)
+
+Definition assert_text : pstr :=
+  s2p "Use of assert detected. The enclosed code will be removed when compiling to optimised byte code.".
+Definition assert_issue : rissue := mk_issue LOW HIGH 703 assert_text None.
+
+(* config.get('skips', []) as the sequence the for loop iterates *)
+Definition assert_skips (cfg : jv) : res (list jv) :=
+  match cfg with
+  | JDict kv =>
+      match assoc (s2p "skips") kv with
+      | None => Ok []
+      | Some (JList l) => Ok l
+      | Some (JStr s) => Ok (map (fun ch => JStr [ch]) s)      (* iterating a str *)
+      | Some (JDict d) => Ok (map (fun kv => JStr (fst kv)) d) (* iterating a dict's keys *)
+      | Some _ => Raise TypeError                                (* None / int / bool not iterable *)
+      end
+  | _ => Raise AttributeError                                    (* no .get *)
+  end.
+
+Fixpoint assert_loop (fname : pstr) (skips : list jv) : res (option rissue) :=
+  match skips with
+  | [] => Ok (Some assert_issue)
+  | JStr g :: t => if fnmatch_b fname g then Ok None else assert_loop fname t
+  | _ :: _ => Raise TypeError                                    (* os.fspath(non-str) *)
+  end.
+
+Definition assert_used_fn (cfg : jv) (c : ctx) : res (option rissue) :=
+  do skips <- assert_skips cfg;;
+  assert_loop (c_filename c) skips.
+
+(* ------------------------------------------------------------------------------------------ *)
+(* B110 try_except_pass / B112 try_except_continue                                             *)
+
+Definition try_pass_text : pstr := s2p "Try, Except, Pass detected.".
+Definition try_continue_text : pstr := s2p "Try, Except, Continue detected.".
+Definition try_issue (text : pstr) : rissue := mk_issue LOW HIGH 703 text None.
+
+(* config['check_typed_exception'] as a truth value *)
+Definition cfg_check_typed (cfg : jv) : res bool :=
+  match cfg with
+  | JDict kv =>
+      match assoc (s2p "check_typed_exception") kv with
+      | Some v => Ok (jv_truthy v)
+      | None => Raise KeyError
+      end
+  | _ => Raise TypeError                                         (* str/list indices, None/int not subscriptable *)
+  end.
+
+(* len(node.body) *)
+Definition handler_body (n : node) : res (list node) :=
+  match field_opt "body" n with
+  | Some (NList l) => Ok l
+  | Some _ => Raise TypeError
+  | None => Raise AttributeError
+  end.
+
+(* node.type is None or getattr(node.type, 'id', None) == 'Exception' *)
+Definition type_is_broad (t : node) : bool :=
+  match t with
+  | NNone => true
+  | _ => match field_opt "id" t with
+         | Some (NId s) => pstr_eqb s (s2p "Exception")
+         | _ => false
+         end
+  end.
+
+(* the early `return` of the typed-exception test: Ok true = go on to the isinstance test *)
+Definition typed_gate (cfg : jv) (n : node) : res bool :=
+  do b <- cfg_check_typed cfg;;
+  if b then Ok true
+  else match field_opt "type" n with
+       | Some t => Ok (type_is_broad t)
+       | None => Raise AttributeError
+       end.
+
+Definition try_except_fn (stmt_cls : string) (text : pstr) (cfg : jv) (c : ctx) : res (option rissue) :=
+  let n := c_node c in
+  do body <- handler_body n;;
+  match body with
+  | [s] =>
+      do go <- typed_gate cfg n;;
+      if go then
+        if is_cls stmt_cls s then Ok (Some (try_issue text)) else Ok None
+      else Ok None
+  | _ => Ok None
+  end.
+
+Definition try_except_pass_fn : jv -> ctx -> res (option rissue) := try_except_fn "Pass" try_pass_text.
+Definition try_except_continue_fn : jv -> ctx -> res (option rissue) :=
+  try_except_fn "Continue" try_continue_text.
+
+(* ------------------------------------------------------------------------------------------ *)
+
+Definition misc_plugins : list plugin := [
+  Plugin (s2p "yaml_load") (fun _ => yaml_load_fn);
+  Plugin (s2p "pytorch_load") (fun _ => pytorch_load_fn);
+  Plugin (s2p "tarfile_unsafe_members") (fun _ => tarfile_unsafe_members_fn);
+  Plugin (s2p "flask_debug_true") (fun _ => flask_debug_true_fn);
+  Plugin (s2p "logging_config_insecure_listen") (fun _ => logging_config_insecure_listen_fn);
+  Plugin (s2p "paramiko_calls") (fun _ => paramiko_calls_fn);
+  Plugin (s2p "exec_used") (fun _ => exec_used_fn);
+  Plugin (s2p "assert_used") assert_used_fn;
+  Plugin (s2p "try_except_pass") try_except_pass_fn;
+  Plugin (s2p "try_except_continue") try_except_continue_fn
+].
